@@ -1,4 +1,5 @@
 import UrcuVerif.Wq.Model
+import UrcuVerif.Src.IR
 /-!
 # Thread-local projections of the L2 work-queue model (`Wq/Model.lean`)
 
@@ -253,5 +254,214 @@ theorem tframe_cWake (c : Cfg) (s s' : State) (t : Nat) (st : step c s .cWake = 
       · right; simp [upd, ht]
     · simp at st
   · simp at st
+
+-- ==========================================================================================================
+/-! ## the worker thread
+
+Nodes of the private list are *addresses* (`Loc`, the node `&work->next`) and loaded `next` pointers are C values
+(`Val`): the automaton follows the traversal `__cds_wfcq_for_each_blocking_safe(&cbs_tmp_head, &cbs_tmp_tail, cbs, n)`
+access by access and **records** what the loads return; `run cbs` is the call `uwp->func(uwp)` with
+`&uwp->next = cbs`.  So the accepted label sequences of one batch are exactly
+
+    spliceX ; first(…) = c₁ ; next(c₁) = c₂ ; run c₁ ; next(c₂) = c₃ ; run c₂ ; … ; next(cₙ) = NULL ; run cₙ ; subQlen n
+
+i.e. every node the traversal returns is run exactly once, at once, in traversal order, and `qlen` is decremented by the
+number of works run.  That the traversal returns the content of the queue at the splice (L2's `batch := queue`) is the
+**queue oracle discipline** (C10, `Props/SrcQueue.lean`): it appears as the global guard of `run` in `wGuard`. -/
+
+inductive WLPc
+  | at (p : WPc)                       -- at L2's pc `p` (`p ≠ inv`)
+  | spl1 | spl2 | spl2a | spl3         -- inside `__cds_wfcq_splice_blocking(&cbs_tmp, &workqueue->cbs)` (L2: `splice`)
+  | first0 | first1 | firstS           -- `__cds_wfcq_first_blocking(&cbs_tmp)`: emptiness test (2 loads), `sync_next` (L2: `inv`)
+  | fetch0 (cbs : Loc) | fetch1 (cbs : Loc) | fetchS (cbs : Loc)    -- `__cds_wfcq_next_blocking(&cbs_tmp, cbs)` (L2: `inv`)
+  | ready (cbs : Loc) (nxt : Val)      -- the next node is known: about to call the work function of `cbs` (L2: `inv`)
+  | empty1                             -- `cds_wfcq_empty`: saw `head.next == NULL` (L2: `emptychk`)
+  | rt1                                -- the same in the RT variant (L2: `rtchk`)
+  deriving DecidableEq, Repr
+
+structure WLState where
+  pc : WLPc
+  cnt : Nat        -- `cbcount`
+  rt : Bool        -- the local `rt`, read once from the flags at thread start
+  deriving DecidableEq, Repr
+
+inductive WLabel
+  | ldFl (f : Nat)            -- load of `workqueue->flags`
+  | decFutex                  -- `uatomic_dec(&workqueue->futex)`
+  | setPaused | clrPaused     -- `uatomic_or(&flags, PAUSED)` / `uatomic_and(&flags, ~PAUSED)`
+  | ldHead (v : Val)          -- load of `workqueue->cbs_head.next`
+  | ldTail (isHead : Bool)    -- load of `workqueue->cbs_tail.p`, compared with `&workqueue->cbs_head`
+  | xchgHead (v : Val)        -- `xchg(&workqueue->cbs_head.next, NULL)`
+  | spliceX                   -- `xchg(&workqueue->cbs_tail.p, &workqueue->cbs_head)`: the splice
+  | ldNext (a : Loc) (v : Val)   -- load of `a->next`, `a` = a node of the private list or `&cbs_tmp_head`
+  | ldTTail (v : Val)         -- load of `cbs_tmp_tail.p`
+  | run (cbs : Loc)           -- `uwp->func(uwp)`, `cbs = &uwp->next`
+  | subQlen (n : Int)         -- `uatomic_sub(&workqueue->qlen, n)`
+  | ldFutex (v : Int)         -- load of `workqueue->futex` (in `futex_wait`)
+  | waitSleep | waitEagain | waitEintr    -- outcomes of `futex(&workqueue->futex, FUTEX_WAIT, -1)`
+  | stFutex                   -- `uatomic_store(&workqueue->futex, 0)` at exit
+  | bad
+  deriving DecidableEq, Repr
+
+/-- address of the head of the private list `cbs_tmp` -/
+def tmpHead : Loc := .glob "&cbs_tmp_head"
+
+def wstep (ls : WLState) (l : WLabel) : Option WLState :=
+  match ls.pc with
+  | .at .start => (match l with
+    | .ldFl f => some { ls with pc := .at (if bit f 1 = true then .top else .dec0), rt := bit f 1 }
+    | _ => none)
+  | .at .dec0 => (match l with
+    | .decFutex => some { ls with pc := .at .top }
+    | _ => none)
+  | .at .top => (match l with
+    | .ldFl f => some { ls with pc := .at (if bit f 4 = true then .pausing else .splice) }
+    | _ => none)
+  | .at .pausing => (match l with
+    | .setPaused => some { ls with pc := .at .paused }
+    | _ => none)
+  | .at .paused => (match l with
+    | .ldFl f => some { ls with pc := .at (if bit f 4 = true then .paused else .unpausing) }
+    | _ => none)
+  | .at .unpausing => (match l with
+    | .clrPaused => some { ls with pc := .at .splice }
+    | _ => none)
+  | .at .splice => (match l with
+    | .ldHead v => some { ls with pc := if v = .int 0 then .spl1 else .spl2 }
+    | _ => none)
+  | .spl1 => (match l with
+    | .ldTail h => some { ls with pc := if h = true then .at .stopchk else .spl2 }
+    | _ => none)
+  | .spl2 => (match l with
+    | .xchgHead v => some { ls with pc := if v = .int 0 then .spl2a else .spl3 }
+    | _ => none)
+  | .spl2a => (match l with
+    | .ldTail h => some { ls with pc := if h = true then .at .stopchk else .spl2 }
+    | _ => none)
+  | .spl3 => (match l with
+    | .spliceX => some { ls with pc := .first0, cnt := 0 }
+    | _ => none)
+  | .first0 => (match l with
+    | .ldNext a v => if a = tmpHead then some { ls with pc := if v = .int 0 then .first1 else .firstS } else none
+    | _ => none)
+  | .first1 => (match l with
+    | .ldTTail v => some { ls with pc := if v = .ptr tmpHead then .at .sub else .firstS }
+    | _ => none)
+  | .firstS => (match l with
+    | .ldNext a v => if a = tmpHead then
+        (match v with
+          | .int n => if n = 0 then some ls else none
+          | .ptr c => some { ls with pc := .fetch0 c })
+      else none
+    | _ => none)
+  | .fetch0 c => (match l with
+    | .ldNext a v => if a = c then some { ls with pc := if v = .int 0 then .fetch1 c else .ready c v } else none
+    | _ => none)
+  | .fetch1 c => (match l with
+    | .ldTTail v => some { ls with pc := if v = .ptr c then .ready c (.int 0) else .fetchS c }
+    | _ => none)
+  | .fetchS c => (match l with
+    | .ldNext a v => if a = c then some { ls with pc := if v = .int 0 then .fetchS c else .ready c v } else none
+    | _ => none)
+  | .ready c nxt => (match l with
+    | .run c' => if c' = c then
+        (match nxt with
+          | .int n => if n = 0 then some { ls with pc := .at .sub, cnt := ls.cnt + 1 } else none
+          | .ptr c2 => some { ls with pc := .fetch0 c2, cnt := ls.cnt + 1 })
+      else none
+    | _ => none)
+  | .at .sub => (match l with
+    | .subQlen n => if n = ls.cnt then some { ls with pc := .at .stopchk } else none
+    | _ => none)
+  | .at .stopchk => (match l with
+    | .ldFl f => some { ls with pc := .at (if bit f 2 = true then (if ls.rt = true then .dead else .exitSt)
+                                           else (if ls.rt = true then .rtchk else .emptychk)) }
+    | _ => none)
+  | .at .emptychk => (match l with
+    | .ldHead v => some { ls with pc := if v = .int 0 then .empty1 else .at .top }
+    | _ => none)
+  | .empty1 => (match l with
+    | .ldTail h => some { ls with pc := .at (if h = true then .waitLd else .top) }
+    | _ => none)
+  | .at .rtchk => (match l with
+    | .ldHead v => some { ls with pc := if v = .int 0 then .rt1 else .at .top }
+    | _ => none)
+  | .rt1 => (match l with
+    | .ldTail _ => some { ls with pc := .at .top }
+    | _ => none)
+  | .at .waitLd => (match l with
+    | .ldFutex v => some { ls with pc := .at (if v = -1 then .waitFx else .dec) }
+    | _ => none)
+  | .at .waitFx => (match l with
+    | .waitSleep => some { ls with pc := .at .waitLd }
+    | .waitEagain => some { ls with pc := .at .dec }
+    | .waitEintr => some { ls with pc := .at .waitLd }
+    | _ => none)
+  | .at .dec => (match l with
+    | .decFutex => some { ls with pc := .at .top }
+    | _ => none)
+  | .at .exitSt => (match l with
+    | .stFutex => some { ls with pc := .at .dead }
+    | _ => none)
+  | _ => none
+
+def wrun : WLState → List WLabel → Option WLState
+  | ls, [] => some ls
+  | ls, l :: r => match wstep ls l with
+    | some ls' => wrun ls' r
+    | none => none
+
+theorem wrun_append (ls : WLState) (a b : List WLabel) :
+    wrun ls (a ++ b) = (wrun ls a).bind (fun m => wrun m b) := by
+  induction a generalizing ls with
+  | nil => rfl
+  | cons x a ih =>
+    simp only [List.cons_append, wrun]
+    cases wstep ls x with
+    | none => rfl
+    | some p => exact ih p
+
+/-- L2's pc of a local pc -/
+def WLPc.abs : WLPc → WPc
+  | .at p => p
+  | .spl1 | .spl2 | .spl2a | .spl3 => .splice
+  | .first0 | .first1 | .firstS | .fetch0 _ | .fetch1 _ | .fetchS _ | .ready _ _ => .inv
+  | .empty1 => .emptychk
+  | .rt1 => .rtchk
+
+/-- **C16, source level**: from the moment the worker has set PAUSED until it has seen PAUSE clear and cleared PAUSED
+(`pausing`, `paused`, `unpausing`) the local automaton accepts only the flag accesses: no splice, no traversal access, no
+work function call -/
+theorem wstep_paused_quiescent (ls ls' : WLState) (l : WLabel) (h : wstep ls l = some ls')
+    (hp : ls.pc = .at .pausing ∨ ls.pc = .at .paused ∨ ls.pc = .at .unpausing) :
+    (l = .setPaused ∨ l = .clrPaused ∨ ∃ f, l = .ldFl f) ∧ ls'.cnt = ls.cnt ∧
+      (ls'.pc = .at .paused ∨ ls'.pc = .at .unpausing ∨ ls'.pc = .at .splice) := by
+  obtain ⟨pc, cnt, rt⟩ := ls
+  simp only at hp
+  rcases hp with rfl | rfl | rfl <;> cases l <;> simp only [wstep] at h <;>
+    first
+    | (simp at h; done)
+    | (simp only [Option.some.injEq] at h; subst h; simp; try (split <;> simp))
+
+/-- a work function is called only at `ready`, for the node fetched, and the count goes up by one -/
+theorem wstep_run (ls ls' : WLState) (c : Loc) (h : wstep ls (.run c) = some ls') :
+    (∃ nxt, ls.pc = .ready c nxt ∧
+      ((nxt = .int 0 ∧ ls'.pc = .at .sub) ∨ (∃ c2, nxt = .ptr c2 ∧ ls'.pc = .fetch0 c2))) ∧ ls'.cnt = ls.cnt + 1 := by
+  obtain ⟨pc, cnt, rt⟩ := ls
+  cases pc with
+  | ready c0 nxt =>
+    simp only [wstep] at h
+    split at h
+    · subst_vars
+      cases nxt with
+      | int n =>
+        simp only at h
+        split at h
+        · simp only [Option.some.injEq] at h; subst h; subst_vars; simp
+        · simp at h
+      | ptr c2 => simp only [Option.some.injEq] at h; subst h; simp
+    · simp at h
+  | «at» p => cases p <;> simp [wstep] at h
+  | _ => simp [wstep] at h
 
 end UrcuVerif.Src.WqL
